@@ -206,6 +206,27 @@ func (env *Env) checkWitness(kf *KnownFinding) (bool, string) {
 		}
 		return false, short(tr, 200)
 	}
+	if kind.Kind == "imports" {
+		var w struct {
+			Shape, Expect string
+			Names         map[string]string
+		}
+		json.Unmarshal(b, &w)
+		sh := importsShapeByName(w.Shape)
+		if sh == nil {
+			return false, "unknown shape " + w.Shape
+		}
+		findings, tr, err := env.importsObserve(*sh, w.Names)
+		if err != nil {
+			return false, err.Error()
+		}
+		for _, f := range findings {
+			if strings.Contains(f, w.Expect) {
+				return true, f
+			}
+		}
+		return false, short(tr, 300)
+	}
 	if kind.Kind == "vars" {
 		var w struct {
 			Shape, Dest, Expect string
